@@ -55,6 +55,12 @@ CHECKS = {
             "finished flag are compared with Ref at every quiescent point, and the engine's whole trace with the operational model Model/Op.lean. needs / mixed / "
             "two-else shapes are outside Ref and are decided by the monitor. Schedules are release orders of the parked queue, not interleavings inside one exec.",
             "5 C01"),
+    "C04": ("Lean 4 K2 theorems over the reference interpretation (independence of branch declaration order via List.Perm, else runs iff no sibling condition "
+            "held, step/act ordering, skipped constructs hand over) for all workflows, condition values and answer sets; the engine is compared with the "
+            "interpretation node by node at every quiescent point, across branch permutations, input valuations, release orders and free-running 1..8 worker runs",
+            "Determinism and schedule independence are properties of Spec/Ref.lean by construction/proof; that the engine refines it is established by differential "
+            "comparison (all permutations and schedules of one (workflow, inputs) must end alike and equal Ref.states), not by an operational proof. needs and "
+            "backward next are outside Ref (compared with the operational model only).", "5 C04"),
 }
 
 NOT_YET = {}
